@@ -1,6 +1,6 @@
 SPECIFICATION Spec
 CONSTANTS N = 2
-  Walker = "outline"
+  Walkers = {"outline"}
   MaxDepth = 1
   MaxChain = 3
   StackCap = 1
